@@ -234,6 +234,11 @@ func (torrent *Torrent) MetadataComplete() error {
 			if path == nil {
 				return errors.New("file has no path")
 			}
+			for _, c := range path {
+				if c == "" || strings.Contains(c, "/") {
+					return errors.New("bad file path")
+				}
+			}
 			if f.Length < 0 || length+f.Length < length {
 				return errors.New("bad file length")
 			}
